@@ -794,16 +794,21 @@ End KeysCorr.
     "certificates" level by level and Deletes empty site folders). *)
 Module CleanCorr.
   Import CM.Clean.Model.
-  Definition f0 : node := File 0 (Cls None None None).
+  (** the only places where Clean.Model's records are built (by field name, not by position) *)
+  Definition cls0 : cls := {| as_cert := None; as_staple := None; as_clean := None |}.   (* parses as nothing *)
+  Definition f0 : node := File 0 cls0.
+  Definition env0 : env :=                                                               (* no fault, no cancel, no kill *)
+    {| faults := []; efaults := []; cancel_at := None; lfe := true; pfaults := []; kill_at := None |}.
+  Definition st_of (s : store) : st := {| sto := s; lg := [] |}.
   Definition c_a : key := [97%N].
   Definition c_ab : key := [97%N; 47%N; 98%N].
-  Definition env0 : env := Env [] [] None true.
   Lemma clean_storage_is_tree_semantics :
     let st0 := [(c_ab, f0)] in
     lookup (remove c_a st0) c_ab = None /\                        (* Delete "a" removes "a/b" *)
     list_pure true st0 c_a = Some [c_ab] /\                       (* "a" lists although nothing is stored at "a" *)
     stat_pure st0 c_a = StatDir /\                                (* the directory key exists *)
-    fst (do_load env0 c_a (St st0 [])) = LErr /\                  (* Load of a directory: an error, not not-exist *)
-    fst (do_store env0 c_a f0 (St st0 [])) = false.               (* Store onto a directory fails *)
-  Proof. vm_compute. repeat split; reflexivity. Qed.
+    exists e : env,                                               (* an environment without faults *)
+      fst (do_load e c_a (st_of st0)) = LErr /\                   (* Load of a directory: an error, not not-exist *)
+      fst (do_store e c_a f0 (st_of st0)) = false.                (* Store onto a directory fails *)
+  Proof. cbv zeta. repeat split; try (vm_compute; reflexivity). exists env0. vm_compute. split; reflexivity. Qed.
 End CleanCorr.
